@@ -31,11 +31,41 @@ SeenTx == UNION {{TxsOf(p)[i] : i \in 1..Len(TxsOf(p))} : p \in seen} \cup {Bogu
    their old (number, index) slot.  BogusTx keeps the set non-empty. *)
 DroppedTx == {t \in SeenTx : DTxPos(t) = NoIdx}
 
+(* one random read request (method and parameters) for the in-flight schema *)
+ReadMethods == {"blockNumber", "blockHashAndNumber", "getBlockWithTxHashes", "getBlockWithTxs", "getBlockWithReceipts",
+                "getBlockTransactionCount", "getStateUpdate", "getTransactionByHash", "getTransactionReceipt",
+                "getTransactionStatus", "getTransactionByBlockIdAndIndex", "getStorageAt", "getNonce",
+                "getClassHashAt", "getClassAt", "getClass"}
+MkRead(m, id, t, i, c, k, s) ==
+  CASE m \in {"blockNumber", "blockHashAndNumber"} -> NoArg(m)
+    [] m \in {"getTransactionByHash", "getTransactionReceipt", "getTransactionStatus"} -> [name |-> m, t |-> t]
+    [] m = "getTransactionByBlockIdAndIndex" -> [name |-> m, id |-> id, i |-> i]
+    [] m = "getStorageAt" -> [name |-> m, id |-> id, c |-> c, s |-> s]
+    [] m \in {"getNonce", "getClassHashAt", "getClassAt"} -> [name |-> m, id |-> id, c |-> c]
+    [] m = "getClass" -> [name |-> m, id |-> id, c |-> k]
+    [] OTHER -> IdArg(m, id)
+(* in-flight reads ask for what the reorg touches: the head by every kind of identifier *)
+HeadIds == {TagId("latest"), TagId("l1_accepted")}
+           \cup (IF chain = <<>> THEN {} ELSE {HashId(chain), NumId(Len(chain) - 1), NumId(Len(chain))})
+HeadTx == (IF chain = <<>> THEN {} ELSE {TxsOf(chain)[i] : i \in 1..Len(TxsOf(chain))}) \cup DroppedTx
+EnabledMutSeqs == {ms \in MutSeqs : StatesAlong([c |-> chain, l |-> l1], ms) # <<>>
+                                     /\ reverts + Cardinality({i \in 1..Len(ms) : ms[i].name = "Revert"}) <= MaxReverts}
+ShapeOf(ms) == [i \in 1..Len(ms) |-> ms[i].name]
+InFlight ==
+  LET en == EnabledMutSeqs IN
+  /\ en # {}
+  /\ \E sh \in R({ShapeOf(ms) : ms \in en}) : \E ms \in R({x \in en : ShapeOf(x) = sh}) :
+       \E m \in R(ReadMethods), id \in R(HeadIds), t \in R(HeadTx), i \in R(0..3), c \in R(Contracts),
+          k \in R(Classes), s \in R(Slots) :
+         ReadDuring(MkRead(m, id, t, i, c, k, s), ms)
+
 AllNext ==
   \/ \E v \in Variants : Store(v)
   \/ Revert
   \/ \E n \in R(Nums) : SetL1Head(n)
   \/ \E n \in R(Nums) : SetL1Head(n)
+  \/ \E g \in R(BOOLEAN) : Restart(g)
+  \/ InFlight
   \/ BlockNumber \/ BlockHashAndNumber
   \/ \E k \in R(1..9) : \E id \in R(IdsOfKind(k)) : GetBlockWithTxHashes(id)
   \/ \E k \in R(1..9) : \E id \in R(IdsOfKind(k)) : GetBlockWithTxs(id)
